@@ -16,10 +16,24 @@ macro_rules! rt_full_group {
     ($name:ident, $unw:expr, [$($t:ty),*]) => {
         #[kani::proof]
         #[kani::unwind($unw)]
-        fn $name() {
+        pub fn $name() {
             let pos0: usize = kani::any();
             kani::assume(pos0 < MAX_PREFIX);
             $( { let v = <$t as Sym>::sym(0); lemma_rt_full::<$t, 32>(&v, pos0); } )*
+            kani::cover!(true, "[cover] end of harness reached");
+        }
+    };
+}
+macro_rules! rt_full_str {
+    ($name:ident, $t:ty, $bound:expr, $cap:expr, $unw:expr) => {
+        #[kani::proof]
+        #[kani::unwind($unw)]
+        #[kani::stub(std::string::String::from_utf8, crate::lemmas::stub_from_utf8)]
+        pub fn $name() {
+            let v = <$t as Sym>::sym($bound);
+            let pos0: usize = kani::any();
+            kani::assume(pos0 < MAX_PREFIX);
+            lemma_rt_full::<$t, $cap>(&v, pos0);
             kani::cover!(true, "[cover] end of harness reached");
         }
     };
@@ -28,7 +42,7 @@ macro_rules! rt_full {
     ($name:ident, $t:ty, $bound:expr, $cap:expr, $unw:expr) => {
         #[kani::proof]
         #[kani::unwind($unw)]
-        fn $name() {
+        pub fn $name() {
             let v = <$t as Sym>::sym($bound);
             let pos0: usize = kani::any();
             kani::assume(pos0 < MAX_PREFIX);
@@ -42,7 +56,7 @@ macro_rules! rt_placed {
     ($name:ident, $t:ty, $bound:expr, $cap:expr, $unw:expr, $pos0:expr) => {
         #[kani::proof]
         #[kani::unwind($unw)]
-        fn $name() {
+        pub fn $name() {
             let v = <$t as Sym>::sym($bound);
             lemma_rt_full_placed::<$t, $cap>(&v, $pos0);
             kani::cover!(true, "[cover] end of harness reached");
@@ -53,7 +67,7 @@ macro_rules! rt_eps_unused {
     ($name:ident, $t:ty, $bound:expr, $cap:expr, $unw:expr, $pos0:expr) => {
         #[kani::proof]
         #[kani::unwind($unw)]
-        fn $name() {
+        pub fn $name() {
             let v = <$t as Sym>::sym($bound);
             lemma_rt_eps::<$t, $cap>(&v, $pos0);
             kani::cover!(true, "[cover] end of harness reached");
@@ -119,8 +133,8 @@ rt_full!(rt_full_dt, DT, 0, 32, 3);
 rt_full!(rt_full_e1, E1, 0, 32, 3);
 // @h rt_full_g2 props=C01,C05,C06,C07 tier=quick kind=complete vars="v:G2<Option<u16>,u32>, pos0<16" fns="derive:G2"
 rt_full!(rt_full_g2, G2<Option<u16>, u32>, 0, 32, 3);
-// @h rt_full_gp props=C01,C05,C06,C07 tier=quick kind=complete vars="v:GP<String,2>{[u16;2],PhantomData}, pos0<16" fns="derive:GP"
-rt_full!(rt_full_gp, GP<String, 2>, 0, 32, 4);
+// @h rt_full_gp props=C01,C05,C06,C07 tier=quick kind=complete vars="v:GP<u64,2>{[u16;2],PhantomData}, pos0<16" fns="derive:GP"
+rt_full!(rt_full_gp, GP<u64, 2>, 0, 32, 4);
 // @h rt_full_ge props=C01,C05,C06,C07,C15 tier=quick kind=complete vars="v:GE<Option<u8>>, pos0<16" fns="derive:GE"
 rt_full!(rt_full_ge, GE<Option<u8>>, 0, 48, 3);
 
@@ -135,9 +149,9 @@ rt_full!(rt_full_vec_opt_u8, Vec<Option<u8>>, 3, 48, 5);
 // @h rt_full_vec_vec_u8 props=C01,C06,C07 tier=thorough kind=bounded bound="outer len<=2, inner len<=2" vars="v:Vec<Vec<u8>>, pos0<16" fns="impls/vec.rs"
 rt_full!(rt_full_vec_vec_u8, Vec<Vec<u8>>, 2, 64, 4);
 // @h rt_full_string props=C01,C06,C07 tier=quick kind=bounded bound="len<=3, ASCII" vars="v:String, pos0<16" fns="impls/string.rs"
-rt_full!(rt_full_string, String, 3, 48, 5);
+rt_full_str!(rt_full_string, String, 3, 48, 5);
 // @h rt_full_box_str props=C01,C06,C07 tier=thorough kind=bounded bound="len<=3, ASCII" vars="v:Box<str>, pos0<16" fns="impls/string.rs"
-rt_full!(rt_full_box_str, Box<str>, 3, 48, 5);
+rt_full_str!(rt_full_box_str, Box<str>, 3, 48, 5);
 // @h rt_full_vec_unit props=C01,C06,C07 tier=quick kind=bounded bound="len<=3" vars="v:Vec<()>, pos0<16" fns="impls/vec.rs,impls/prim.rs:unit MaxSizeOf"
 rt_full!(rt_full_vec_unit, Vec<()>, 3, 48, 5);
 // @h rt_full_vec_z8 props=C01,C05,C06,C07 tier=thorough kind=bounded bound="len<=2" vars="v:Vec<Z8>, pos0<16" fns="impls/vec.rs,derive:Z8"
